@@ -636,4 +636,165 @@ def rule_flat(ctx) -> RuleResult:
     return res
 
 
-RULES = [rule_inv, rule_collide, rule_flat]
+# -------------------------------------------------------------------------------------------------------------- UPDATE
+def _is_enabled_read(e) -> bool:
+    """e reads a form's `enabled` member: form.get("enabled", ..) / form["enabled"] / truth(ui_json, name, "enabled")"""
+    if isinstance(e, ast.Call) and call_name(e) == "get" and isinstance(e.func, ast.Attribute) and e.args \
+            and isinstance(e.args[0], ast.Constant) and e.args[0].value == "enabled":
+        return True
+    if _key_is(e, "enabled") and isinstance(e.ctx, ast.Load):
+        return True
+    if isinstance(e, ast.Call) and call_name(e) == "truth":
+        m = e.args[2] if len(e.args) == 3 else next((k.value for k in e.keywords if k.arg == "member"), None)
+        return isinstance(m, ast.Constant) and m.value == "enabled"
+    return False
+
+
+def rule_update(ctx) -> RuleResult:
+    res = RuleResult(
+        "C14.UPDATE",
+        "C14",
+        "in InputFile.update_ui_values every normal path of one iteration either stores the given value (into the form / the "
+        "ui_json entry) or has established that the form's `enabled` member, read AFTER set_enabled updated it, is false: a value "
+        "(None included) may only be left unwritten for a form that ends up disabled",
+        floor=2,
+    )
+    from ..kinds import reach
+
+    p = ctx.p
+    u = p.cls("InputFile").methods.get("update_ui_values")
+    if u is None:
+        raise AnalysisError("C14: anchor InputFile.update_ui_values not found")
+    v = _view(ctx, u)
+    flow = flow_of(ctx, v)
+    g = flow.g
+    dprm = next((x for x in v.params if x not in ("self", v.self_name)), None)
+    if dprm is None:
+        raise AnalysisError(f"{u.where}: update_ui_values takes no data argument")
+
+    def over_data(e, at):
+        """'items' / 'keys' when the expression iterates the data argument"""
+        r = flow.resolve(e, at)
+        while isinstance(r, ast.Call) and isinstance(r.func, ast.Name) and r.func.id in ("list", "tuple", "sorted", "iter") and len(r.args) == 1:
+            r = r.args[0]
+        if isinstance(r, ast.Call) and isinstance(r.func, ast.Attribute) and r.func.attr in ("items", "keys") and unparse(r.func.value) == dprm:
+            return r.func.attr
+        return "keys" if unparse(r) == dprm else None
+
+    loops = []  # (header node, key variable, value variable | None)
+    for n in g.nodes:
+        if n.kind != "fornext":
+            continue
+        st = n.stmt
+        how = over_data(st.iter, next((h for h, _ in n.pred if h.kind == "foriter"), None))
+        if how == "items" and isinstance(st.target, ast.Tuple) and len(st.target.elts) == 2 and all(isinstance(x, ast.Name) for x in st.target.elts):
+            loops.append((n, st.target.elts[0].id, st.target.elts[1].id))
+        elif how == "keys" and isinstance(st.target, ast.Name):
+            loops.append((n, st.target.id, None))
+    if not loops:
+        raise AnalysisError(f"{u.where}: the loop over the given data was not recognised in update_ui_values")
+
+    for header, keyvar, valvar in loops:
+        def is_value(e, at):
+            r = flow.resolve(e, at)
+            if isinstance(r, ast.Name):
+                return r.id == valvar
+            return unparse(r) in (f"{dprm}[{keyvar}]", f"{dprm}.get({keyvar})")
+
+        def stores(n):
+            if n.kind != "stmt":
+                return False
+            a = n.ast
+            if isinstance(a, (ast.Assign, ast.AnnAssign)) and a.value is not None:
+                tgs = a.targets if isinstance(a, ast.Assign) else [a.target]
+                return any(isinstance(t, ast.Subscript) for t in tgs) and is_value(a.value, n)
+            if isinstance(a, ast.Expr) and isinstance(a.value, ast.Call) and call_name(a.value) in ("update", "__setitem__", "setdefault"):
+                c = a.value
+                cands = list(c.args) + [k.value for k in c.keywords] + [x for d in c.args if isinstance(d, ast.Dict) for x in d.values]
+                return any(is_value(x, n) for x in cands)
+            return False
+
+        def kills(n):
+            """the form's enabled state may change here: set_enabled(..) or a store into <form>["enabled"]"""
+            parts = Flow._parts(n)
+            if any(isinstance(c, ast.Call) and call_name(c) == "set_enabled" for part in parts for c in ast.walk(part)):
+                return True
+            return n.kind == "stmt" and isinstance(n.ast, ast.Assign) and any(_key_is(t, "enabled") for t in n.ast.targets)
+
+        kill_nodes = [n for n in g.nodes if kills(n)]
+        in_iter = {}
+
+        def after(n):
+            if n not in in_iter:
+                in_iter[n] = reach(g, [m for m, _ in n.succ], avoid=lambda x: x is header)
+            return in_iter[n]
+
+        def stale(dn, t):
+            return any(k is not dn and k in after(dn) and t in after(k) for k in kill_nodes)
+
+        def fresh_test(t):
+            """the test with locals replaced by their definitions, except enabled states read BEFORE the last set_enabled"""
+            import copy
+
+            def sub(e, at, depth=0):
+                class R(ast.NodeTransformer):
+                    def visit_Name(self, nm):
+                        if isinstance(nm.ctx, ast.Load) and depth < 8:
+                            d = flow.definition(nm, at)
+                            if d is not None:
+                                r = sub(copy.deepcopy(d[0]), d[1], depth + 1)
+                                if any(_is_enabled_read(x) for x in ast.walk(r)) and stale(d[1], t):
+                                    return nm
+                                return r
+                        return nm
+
+                return R().visit(copy.deepcopy(e))
+
+            return sub(t.ast, t)
+
+        def disabled_on(t, label):
+            """taking this edge of the test implies that a fresh read of the form's enabled member was false"""
+            atoms, f = bool_table(fresh_test(t), lambda e: "E" if _is_enabled_read(e) else "?" + unparse(e))
+            if "E" not in atoms:
+                return False
+            rows = [env for env in assignments(atoms) if bool(f(env)) == (label == "true")]
+            return bool(rows) and all(not env["E"] for env in rows)
+
+        seen, ends = set(), {}
+        todo = [(m, False, False) for m, lab in header.succ if lab == "loop"]
+        while todo:
+            n, S, F = todo.pop()
+            if (n, S, F) in seen:
+                continue
+            seen.add((n, S, F))
+            if kills(n):
+                F = False
+            if stores(n):
+                S = True
+            if n in (g.exit,):
+                ends.setdefault((n.lineno, S, F), n)
+                continue
+            if n is g.rexit:
+                continue
+            for m, lab in n.succ:
+                if lab in ("exc", "raise"):
+                    continue
+                F2 = F or (n.kind == "test" and lab in ("true", "false") and disabled_on(n, lab))
+                if m is header:
+                    ends.setdefault((n.lineno, S, F2), n)
+                else:
+                    todo.append((m, S, F2))
+        if not ends:
+            raise AnalysisError(f"{u.where}: no iteration of the data loop reaches its end in update_ui_values")
+        for (line, S, F), n in sorted(ends.items(), key=lambda kv: kv[0]):
+            ok = S or F
+            res.inst(f"update_ui_values: iteration ending at line {line}: value stored={S}, form known disabled={F}", nontrivial=True, ok=ok)
+            if not ok:
+                res.find("InputFile", "update_ui_values", "a value can be left unwritten while the form stays enabled", f"{v.module.relpath}:{line}",
+                         "an iteration can end without storing the given value and without a test of the form's `enabled` member (read after "
+                         "set_enabled) being false: None given to a parameter that stays enabled is not written, the file keeps the previous "
+                         "value with enabled=true and reading it back yields that stale value instead of None")
+    return res
+
+
+RULES = [rule_inv, rule_collide, rule_flat, rule_update]
